@@ -514,13 +514,28 @@ func TestVerifC14(t *testing.T) {
 	// (a) poll + legacy client + answer -> legacy 200 with the answer; (b) poll + legacy client, no answer -> 504;
 	// (c) idle poll -> 200 "no match" after the proxy timeout.
 	type flow struct{ name, got, want string }
-	flows := make([]flow, 3)
+	flows := make([]flow, 4)
 	var fw sync.WaitGroup
 	post := func(path string, hdr map[string]string, body []byte, d time.Duration) c14Resp {
 		return c14Do(flowAddr, c14Raw("POST", path, hdr, body, true), "POST", d)
 	}
 	long := time.Duration(ProxyTimeout+ClientTimeout)*time.Second + 10*time.Second
-	fw.Add(3)
+	fw.Add(4)
+	go func() {
+		// (d) two overlapping polls that name the same session id: each is a request of its own and
+		// must get its own response within the proxy timeout
+		defer fw.Done()
+		time.Sleep(1200 * time.Millisecond)
+		poll, _ := messages.EncodeProxyPollRequestWithRelayPrefix("flow-d", "standalone", "restricted", 1, "")
+		c1 := make(chan c14Resp, 1)
+		go func() { c1 <- post("/proxy", nil, poll, long) }()
+		time.Sleep(3 * time.Second)
+		p2 := post("/proxy", nil, poll, time.Duration(ProxyTimeout)*time.Second+6*time.Second)
+		p1 := <-c1
+		idle, _ := messages.EncodePollResponse("", false, "")
+		want := "200 " + vh.Hex(idle)
+		flows[3] = flow{"two-overlapping-polls-same-sid", p1.canon() + " | " + p2.canon(), want + " | " + want}
+	}()
 	go func() {
 		defer fw.Done()
 		poll, _ := messages.EncodeProxyPollRequestWithRelayPrefix("flow-a", "standalone", "unrestricted", 0, "")
